@@ -55,3 +55,15 @@ Definition be64 (n : N) : bytes := be_n 8 n.
 
 Definition is_byte (b : N) : bool := b <? 256.
 Definition all_bytes (l : bytes) : bool := forallb is_byte l.
+
+(* read exactly n bytes (read_exact / read_uN): None = io::Error (UnexpectedEof) *)
+Fixpoint take_n (l : bytes) (n : N) : option (bytes * bytes) :=
+  if n =? 0 then Some ([], l)
+  else match l with
+       | [] => None
+       | x :: r => match take_n r (n - 1) with
+                   | Some (a, b) => Some (x :: a, b)
+                   | None => None
+                   end
+       end.
+
